@@ -70,6 +70,12 @@ def _set_field(st, acc, raw):
     st.set_status_block(blk[:acc.pos] + data + blk[acc.pos + acc.length:])
 
 
+def _hmask(a):
+    """the field mask the table declares (MaxItems ladder of the protocol), derived by the harness"""
+    m = int(a.maxitems) if a.maxitems is not None else 0
+    return 15 if m > 8 else 7 if m > 4 else 3 if m > 2 else 1
+
+
 def _set_unit(st, unit):
     u = st.accessors["TempUnits"]
     idx = u.items.index(unit)
@@ -246,7 +252,7 @@ def heater_records(cfg, log, rng, recs, meta, loop=None, hraws=()):
     for key in ("Heating", "CoolingDown"):
         if key in acc:
             a = acc[key]
-            vals = list(range((a.bitmask + 1) if a.bitpos is not None else 3))
+            vals = list(range((_hmask(a) + 1) if a.bitpos is not None else 3))
             flags.append((key, a, vals))
         else:
             flags.append((key, None, [0]))
@@ -254,29 +260,36 @@ def heater_records(cfg, log, rng, recs, meta, loop=None, hraws=()):
         _set_unit(st, unit)
         for hv in flags[0][2]:
             for cv in flags[1][2]:
-                for cur, real in ((500, 600), (600, 500), (555, 555), (0, 1), (65535, 65534), (600, 0), (0, 0), (700, 0)):
+                for ci, (cur, real) in enumerate(((500, 600), (600, 500), (555, 555), (0, 1), (65535, 65534), (600, 0), (0, 0), (700, 0))):
+                    # the bits of the flags' bytes that belong to OTHER items (outputs, relays): all clear, all set, seeded
+                    for (key, a, _) in flags:
+                        if a is not None and a.bitpos is not None:
+                            fill = (0, (1 << (8 * a.length)) - 1, rng.randrange(1 << (8 * a.length)))[ci % 3]
+                            _set_field(st, a, fill)
                     for (key, a, _), v in zip(flags, (hv, cv)):
                         if a is not None:
                             w = int.from_bytes(st.status_block[a.pos:a.pos + a.length], "big")
                             if a.bitpos is not None:
-                                w = (w & ~(a.bitmask << a.bitpos)) | (v << a.bitpos)
+                                w = (w & ~(_hmask(a) << a.bitpos)) | (v << a.bitpos)
                             else:
                                 w = v
                             _set_field(st, a, w)
                     _set_field(st, acc["DisplayedTempG"], cur)
                     _set_field(st, acc["RealSetPointG"], real)
 
-                    def f(a):
+                    def f(a, v):
+                        # the flag as the harness wrote it (not as the item under test reads it back)
                         if a is None:
                             return {"present": False, "type": "none", "raw": 0, "label": ""}
-                        val = a.value
-                        return {"present": True, "type": a.type, "raw": int(a.raw_value),
-                                "label": val if isinstance(val, str) else ""}
+                        lab = ""
+                        if isinstance(a.items, list):
+                            lab = a.items[v] if v < len(a.items) else "Unknown"
+                        return {"present": True, "type": a.type, "raw": v, "label": lab}
                     try:
                         got = heater.current_operation
                     except Exception as e:  # noqa
                         got = f"raised:{type(e).__name__}"
-                    recs.append({"kind": "op", "heat": f(flags[0][1]), "cool": f(flags[1][1]),
+                    recs.append({"kind": "op", "heat": f(flags[0][1], hv), "cool": f(flags[1][1], cv),
                                  "cmp": (cur > real) - (cur < real), "got": got})
                     meta.append((name, {"unit": unit, "cur": cur, "real": real}))
     # writes through the heater's own setters (the user-facing API): what the heater presents as its target is
